@@ -70,7 +70,7 @@ def execute(sc):
     post, sol, ab, attempts = c13.get_posterior(sc, b)
     hm = float(onp.mean([s[-1] for s in sc["script"][:-1]]))
     S = compare.nordsieck_scales(q, d, hm)
-    means_s, J_s = c13.chain_joint(post, S)
+    means_s, J_s, As_s, bs_s = c13.chain_joint(post, S, return_parts=True)
     N = means_s.shape[0]
     sel = onp.concatenate([i * D + k * d + onp.arange(d) for i in range(N)])
     Ssel = onp.tile(S[k * d:(k + 1) * d], N)
@@ -108,6 +108,18 @@ def execute(sc):
     cond = float(onp.max(onp.diag(Sy)) / max(onp.min(std**2), 1e-300))
     stats["cond"] = cond
     tol = 1e-7 + 1e-13 * min(cond, 1e8)
+    # rounding of the backward means: a backward conditional for a high coefficient has gain entries of order
+    # h^-k, so the float64 representation of the (O(1)) low coefficients costs eps * (|A||m| + |b|) in the
+    # predicted mean of coefficient k; its effect on the log-density is (|z|+1) * delta / sd per time point
+    sdv = onp.sqrt(onp.diag(Sy)).reshape(N, d)
+    zv = onp.abs(data - mu.reshape(N, d)) / sdv
+    amp = 0.0
+    for i in range(N - 1):
+        delta = compare.EPS * (onp.abs(As_s[i]) @ onp.abs(means_s[i + 1]) + onp.abs(bs_s[i]))[k * d:(k + 1) * d] / S[k * d:(k + 1) * d]
+        amp += float(onp.sum((zv[i] + 1.0) * delta / sdv[i]))
+    stats["mean_rounding_amplification"] = amp
+    tol_abs = tol * (1.0 + abs(ref)) + 100.0 * amp / (N if sc["average"] else 1)
+    tol = tol_abs / (1.0 + abs(ref))
     if not onp.isfinite(val):
         viol.append({"inv": "LML-finite", "msg": f"time-series loss is not finite ({val})"})
     elif err > tol:
